@@ -129,7 +129,9 @@ def run(ctx):
                          "URL or type changed, same, disjoint), want 1-3, retries 0-3, "
                          "PutB/PutHB/PutHR (oversize, wrong hash, wrong length), per-attempt answers from {200 with stored 0..3 or "
                          "without header, 400, 403, 408, 429, 500, 502, 503, connection error}, random completion schedules; "
-                         "distinct by hash of the case term; non-trivial = at least two uploads completed",
+                         "distinct by hash of the case term; non-trivial = at least two uploads completed; stage c11pool: 2-6 KeepClients per "
+                         "process (ApiInsecure x disk/proxy/mixed lists, re-used after a refresh) asking the shared HTTP client pool in turn, "
+                         "first two clients stratified by which flags differ, shipped or other Default*Timeout values",
                     assumptions=["the rendezvous order of the services is an input taken from NewRootSorter (property C12)",
                                  "service lists reach the client through LoadKeepServicesFromJSON (the API poller path is driven by the C12 check); uuids within a list are distinct",
                                  "net/http is replaced by a stub that fails a request whose body does not match ContentLength or whose body reader fails",
